@@ -314,6 +314,9 @@ class BinningConfig(BaseConfig, Immutable):
             This cosmology object is not stored with this instance, but should
             be managed by the top level :obj:`~yaw.Configuration` class.
         """
+        if edges is NotSet and method is NotSet and self.is_custom:
+            edges = self.edges  # custom bin edges are retained unless replaced
+
         if edges is NotSet:
             if method == "custom":
                 raise ConfigError("'method' is 'custom' but no bin edges provided")
